@@ -530,7 +530,7 @@ fn main() {
         }
         if r.is_err() {
             let l = a.l();
-            writeln!(w, "case {} {} RUST-PANIC", l[0].n(), l[1].n()).unwrap();
+            writeln!(w, "panic {} RUST-PANIC domain={}", l[1].n(), l[0].n()).unwrap();
         }
     }
     w.flush().unwrap();
